@@ -41,9 +41,18 @@ type Event struct {
 }
 
 type Thread struct {
-	fn   *FuncV
-	args []Value
+	fn      *FuncV
+	args    []Value
+	done    bool
+	running bool
 }
+
+type ctxInfo struct {
+	parent    int // 0 = none
+	cancelled bool
+}
+
+type threadBlocked struct{}
 
 type Exec struct {
 	st   *Store
@@ -65,7 +74,8 @@ type Exec struct {
 	initDone    map[*ssa.Package]bool
 	buses       map[string]*BusState
 	events      []Event
-	threads     []Thread
+	threads     []*Thread
+	ctxs        map[int]*ctxInfo
 	instrCount  int
 	depth       int
 	forkCount   int
@@ -87,6 +97,25 @@ type Exec struct {
 	loopFuncs  map[string]bool
 	inStep     int
 	identSeen  []*Term
+
+	// happens-before race detection (vector clocks) over recorded goroutines
+	curThread int
+	vcs       [][]int
+	locs      map[string]*locState
+	ctxRel    map[int][]int
+	raceSeen  map[string]bool
+}
+
+type accessRec struct {
+	thread, clock int
+	atomic        bool
+	where         string
+}
+
+type locState struct {
+	lastW *accessRec
+	reads []accessRec
+	rel   []int
 }
 
 type frame struct {
@@ -116,6 +145,7 @@ func (e *Exec) resetPath(prefix []decision) {
 	e.buses = map[string]*BusState{}
 	e.events = nil
 	e.threads = nil
+	e.ctxs = map[int]*ctxInfo{}
 	e.instrCount = 0
 	e.depth = 0
 	e.forkCount = 0
@@ -124,6 +154,11 @@ func (e *Exec) resetPath(prefix []decision) {
 	e.output = map[string][]Value{}
 	e.inStep = 0
 	e.identSeen = nil
+	e.curThread = 0
+	e.vcs = [][]int{{1}}
+	e.locs = map[string]*locState{}
+	e.ctxRel = map[int][]int{}
+	e.raceSeen = map[string]bool{}
 }
 
 type PathResult struct {
@@ -148,8 +183,24 @@ func (e *Exec) RunPath(entry *ssa.Function, args []Value, prefix []decision) (re
 			res = e.result(pe.status, pe.reason)
 		}
 	}()
+	e.runInit(entry.Package())
 	e.callFunc(entry, args, nil)
 	return e.result("ok", "")
+}
+
+// runInit executes the package initialiser (package-level variables get their
+// real initial values; initialisers of packages outside the module are skipped).
+func (e *Exec) runInit(p *ssa.Package) {
+	if p == nil || e.initDone[p] {
+		return
+	}
+	e.initDone[p] = true
+	if f := p.Func("init"); f != nil {
+		gw := e.globalW
+		e.globalW = map[string]bool{} // writes by initialisers are not Step's footprint
+		e.callFunc(f, nil, nil)
+		e.globalW = gw
+	}
 }
 
 func (e *Exec) result(status, reason string) PathResult {
@@ -583,6 +634,7 @@ func (e *Exec) step(fr *frame, ins ssa.Instruction) {
 		if strings.HasPrefix(p.obj.name, "global:") {
 			e.globalW[p.obj.name[7:]] = true
 		}
+		e.access(p, true, false, fr.fn.Name())
 		e.store(p, e.get(fr, x.Val))
 	case *ssa.MakeInterface:
 		fr.env[x] = &IfaceV{t: x.X.Type(), v: e.get(fr, x.X)}
@@ -618,8 +670,10 @@ func (e *Exec) step(fr *frame, ins ssa.Instruction) {
 	case *ssa.Go:
 		c := x.Common()
 		fn, args := e.resolveCall(fr, c)
-		e.threads = append(e.threads, Thread{fn, args})
+		e.threads = append(e.threads, &Thread{fn: fn, args: args})
 		e.events = append(e.events, Event{Kind: "go"})
+		e.forkClock()
+		e.wake()
 	case *ssa.DebugRef:
 	default:
 		e.unsupported(fmt.Sprintf("instruction %T in %s", ins, fr.fn.Name()))
@@ -641,6 +695,7 @@ func (e *Exec) unop(fr *frame, x *ssa.UnOp) Value {
 		if strings.HasPrefix(p.obj.name, "global:") {
 			e.globalR[p.obj.name[7:]] = true
 		}
+		e.access(p, false, false, fr.fn.Name())
 		return e.load(p)
 	case token.NOT:
 		return e.st.Not(v.(*Term))
@@ -868,7 +923,7 @@ func (e *Exec) valueEq(a, b Value) *Term {
 		e.unsupported("func comparison")
 	case *OpaqueV:
 		y, ok := b.(*OpaqueV)
-		return e.st.Bool(ok && x == y)
+		return e.st.Bool(ok && x.kind == y.kind && x.id == y.id)
 	case *StringV:
 		return e.stringEq(x, b.(*StringV))
 	case *BytesV:
@@ -1296,9 +1351,67 @@ func (e *Exec) appendBuiltin(fr *frame, c *ssa.CallCommon, args []Value) Value {
 	return nil
 }
 
+// ctxCause returns the id of the nearest cancelled ancestor-or-self (0 = live).
+func (e *Exec) ctxCause(id int) int {
+	for id != 0 {
+		ci := e.ctxs[id]
+		if ci == nil {
+			return 0
+		}
+		if ci.cancelled {
+			return id
+		}
+		id = ci.parent
+	}
+	return 0
+}
+
+// wake runs every recorded goroutine that is not blocked any more.  A thread
+// is run to completion at the moment it becomes runnable (the "fast watcher"
+// schedule); later schedules are equivalent to a later cancellation instant.
+func (e *Exec) wake() {
+	for ti, t := range e.threads {
+		if t.done || t.running {
+			continue
+		}
+		t.running = true
+		ev := len(e.events)
+		func() {
+			defer func() {
+				if r := recover(); r != nil {
+					if _, ok := r.(threadBlocked); ok {
+						if len(e.events) != ev {
+							panic(pathEnd{"undecided", "unsupported: goroutine has effects before it blocks"})
+						}
+						return
+					}
+					panic(r)
+				}
+			}()
+			e.events = append(e.events, Event{Kind: "thread-start"})
+			ev = len(e.events)
+			prev := e.curThread
+			e.curThread = ti + 1
+			defer func() { e.curThread = prev }()
+			e.invoke(t.fn, t.args)
+			t.done = true
+			e.events = append(e.events, Event{Kind: "thread-end"})
+		}()
+		if !t.done {
+			e.events = e.events[:ev-1]
+		}
+		t.running = false
+	}
+}
+
 func (e *Exec) chanRecv(v Value, commaOk bool) Value {
 	if op, ok := v.(*OpaqueV); ok && op.kind == "donechan" {
+		c := op.data.(*OpaqueV)
+		if e.ctxCause(c.id) == 0 {
+			panic(threadBlocked{})
+		}
 		e.events = append(e.events, Event{Kind: "recv-done", Args: []Value{op}})
+		e.acquire(e.ctxRel[e.ctxCause(c.id)])
 		return &StructV{}
 	}
 	e.unsupported("channel receive")
@@ -1312,13 +1425,13 @@ func (e *Exec) makeMap(t types.Type) Value {
 	mt := t.Underlying().(*types.Map)
 	kw, _, ok := intWidth(mt.Key())
 	if !ok || kw == 0 {
-		e.unsupported("map key type " + mt.Key().String())
+		return &OpaqueV{kind: "map:" + mt.String()}
 	}
 	vw := -1
 	if w, _, ok := intWidth(mt.Elem()); ok && w > 0 {
 		vw = w
 	} else if st, ok := mt.Elem().Underlying().(*types.Struct); !ok || st.NumFields() != 0 {
-		e.unsupported("map value type " + mt.Elem().String())
+		return &OpaqueV{kind: "map:" + mt.String()}
 	}
 	e.objSeq++
 	m := &MapObj{kw: kw, vw: vw, id: e.objSeq}
@@ -1460,4 +1573,110 @@ func sortedKeys(m map[string]bool) []string {
 	}
 	sort.Strings(out)
 	return out
+}
+
+// ---------------------------------------------------------------------------
+// vector-clock race detection over the executed interleaving
+
+func (e *Exec) forkClock() {
+	cur := e.vcs[e.curThread]
+	n := len(e.threads) + 1
+	for i := range e.vcs {
+		for len(e.vcs[i]) < n {
+			e.vcs[i] = append(e.vcs[i], 0)
+		}
+	}
+	cur = e.vcs[e.curThread]
+	child := append([]int(nil), cur...)
+	child[n-1] = 1
+	e.vcs = append(e.vcs, child)
+	cur[e.curThread]++
+}
+
+func joinVC(a, b []int) []int {
+	for len(a) < len(b) {
+		a = append(a, 0)
+	}
+	for i := range b {
+		if b[i] > a[i] {
+			a[i] = b[i]
+		}
+	}
+	return a
+}
+
+func (e *Exec) acquire(rel []int) {
+	if rel == nil {
+		return
+	}
+	e.vcs[e.curThread] = joinVC(e.vcs[e.curThread], rel)
+}
+
+func (e *Exec) release(rel []int) []int {
+	r := joinVC(append([]int(nil), rel...), e.vcs[e.curThread])
+	e.vcs[e.curThread][e.curThread]++
+	return r
+}
+
+func locKey(p *PtrV) string {
+	var sb strings.Builder
+	fmt.Fprintf(&sb, "%d", p.obj.id)
+	for _, pe := range p.path {
+		if pe.sym != nil {
+			sb.WriteString("/*")
+		} else {
+			fmt.Fprintf(&sb, "/%d", pe.i)
+		}
+	}
+	return sb.String()
+}
+
+func (e *Exec) access(p *PtrV, write, atomic bool, where string) {
+	if len(e.threads) == 0 || p.obj == nil {
+		return
+	}
+	k := locKey(p)
+	ls := e.locs[k]
+	if ls == nil {
+		ls = &locState{}
+		e.locs[k] = ls
+	}
+	t := e.curThread
+	vc := e.vcs[t]
+	ordered := func(a *accessRec) bool {
+		if a.thread == t {
+			return true
+		}
+		return a.thread < len(vc) && a.clock <= vc[a.thread]
+	}
+	report := func(a *accessRec, kind string) {
+		if a.atomic && atomic {
+			return
+		}
+		msg := fmt.Sprintf("%s on %s: %s (thread %d) unordered with %s (thread %d)", kind, p.obj.name, where, t, a.where, a.thread)
+		if e.raceSeen[msg] {
+			return
+		}
+		e.raceSeen[msg] = true
+		e.obligations = append(e.obligations, Obligation{Name: "norace", Kind: "race",
+			PC: append([]*Term(nil), e.pcs...), Cond: e.st.False, Detail: msg})
+	}
+	if ls.lastW != nil && !ordered(ls.lastW) {
+		if write {
+			report(ls.lastW, "write/write race")
+		} else {
+			report(ls.lastW, "read/write race")
+		}
+	}
+	if write {
+		for i := range ls.reads {
+			if !ordered(&ls.reads[i]) {
+				report(&ls.reads[i], "write/read race")
+			}
+		}
+		ls.lastW = &accessRec{t, vc[t], atomic, where}
+		ls.reads = nil
+	} else {
+		ls.reads = append(ls.reads, accessRec{t, vc[t], atomic, where})
+	}
 }
